@@ -55,7 +55,7 @@ class Census(ast.NodeVisitor):
         self.scope = []          # enclosing class / function names
         self.tries = []          # stack of handler-class lists of the try bodies we are inside
         self.caught_vars = []    # names bound by `except X as e` we are inside
-        self.sites, self.calls = [], []
+        self.sites, self.calls, self.asserts = [], [], []
 
     def qual(self):
         return ".".join(self.scope) or "<module>"
@@ -108,6 +108,11 @@ class Census(ast.NodeVisitor):
         self.sites.append((self.rel, self.qual(), cls, cls not in ("<reraise>", "<variable>") and self.caught_here(cls)))
         self.generic_visit(n)
 
+    def visit_Assert(self, n):
+        # `assert False` / `assert isinstance(...)`: an AssertionError is not a documented channel either
+        self.asserts.append((self.rel, self.qual()))
+        self.generic_visit(n)
+
     def visit_Call(self, n):
         f = n.func
         name = f.id if isinstance(f, ast.Name) else f.attr if isinstance(f, ast.Attribute) else None
@@ -124,7 +129,7 @@ def main():
             if len(n.bases) != 1 or not isinstance(n.bases[0], ast.Name):
                 raise Untranslatable("errors.py:%d: class %s without a single named base" % (n.lineno, n.name))
             local[n.name] = n.bases[0].id
-    sites, calls, files = [], [], []
+    sites, calls, files, asserts = [], [], [], []
     for root, dirs, fs in os.walk(os.path.join(REPO, "pyshacl")):
         dirs.sort()
         for f in sorted(fs):
@@ -136,6 +141,7 @@ def main():
             c.visit(ast.parse(open(os.path.join(REPO, rel), encoding="utf-8").read()))
             sites += c.sites
             calls += c.calls
+            asserts += c.asserts
     b = lambda x: "true" if x else "false"
     def fold(rows, fmt):
         # one line per (file, function, class, flag) with its multiplicity: the census is a multiset
@@ -154,6 +160,8 @@ def main():
            "   (file, enclosing function, callee, inside a try catching the callee's class, how many) *)",
            "Definition helper_calls : list (string * string * string * bool * N) :=\n  [%s].\n"
            % fold(calls, lambda r, k: "(%s, %s, %s, %s, %d%%N)" % (cstr(r[0]), cstr(r[1]), cstr(r[2]), b(r[3]), k)),
+           "(* every assert statement: (file, enclosing function, how many) *)",
+           "Definition assert_sites : list (string * string * N) :=\n  [%s].\n" % fold(asserts, lambda r, k: "(%s, %s, %d%%N)" % (cstr(r[0]), cstr(r[1]), k)),
            "Definition helper_class : list (string * string) :=\n  [%s].\n" % "; ".join("(%s, %s)" % (cstr(a), cstr(c)) for a, c in sorted(HANDLED_BY_CALLERS.items())),
            "(* pyshacl/errors.py: class and its base *)",
            "Definition census_error_classes : list (string * string) :=\n  [%s].\n" % "; ".join("(%s, %s)" % (cstr(a), cstr(c)) for a, c in local.items()),
@@ -162,7 +170,7 @@ def main():
     text = "\n".join(out)
     if not os.path.exists(dest) or open(dest).read() != text:
         open(dest, "w").write(text)
-    print("T6: ok (%d raise statements, %d helper calls, %d files)" % (len(sites), len(calls), len(files)))
+    print("T6: ok (%d raise statements, %d helper calls, %d assert statements, %d files)" % (len(sites), len(calls), len(asserts), len(files)))
 
 
 if __name__ == "__main__":
